@@ -10,7 +10,7 @@ from ..exprs import cmp_canon, conjuncts, inline, mentions, single_defs
 from ..selftest import B, M
 from .common import (
     F_BASE, F_BC, F_BIN, F_CONT, F_DISC, F_MULTI, F_QUAL, F_QUAN, F_TYPE,
-    asserts_in, calls, cfg_of, concrete_classes, construct, loc, path_str, short,
+    asserts_in, calls, cfg_of, concrete_classes, construct, discretizer_classes, loc, path_str, short,
 )
 
 EXPLANATION = (
@@ -20,10 +20,12 @@ EXPLANATION = (
     "R-validation-table (each malformed-input class of the statement maps to an assert with the "
     "right predicate in the named validator, not nested under unrelated conditions); R-assert-only "
     "(no raise of another exception type in the discretizer/carver modules); R-index-compare (the "
-    "element-wise comparison of X.index and y.index is preceded by a length test)."
+    "element-wise comparison of X.index and y.index is preceded by a length test); R-validation-reached "
+    "(call graph: every concrete class' fit reaches the common validator, and no _prepare_data override "
+    "dereferences X before the base validator has asserted its type)."
 )
 NOT_DECIDED = "behaviour of pandas on exotic malformed inputs; implicit exceptions inside library calls"
-FLOORS = {"R-guard-first": 12, "R-validation-table": 16, "R-index-compare": 1, "R-assert-only": 1}
+FLOORS = {"R-guard-first": 12, "R-validation-table": 16, "R-index-compare": 1, "R-assert-only": 1, "R-validation-reached": 20}
 
 
 # ---------------------------------------------------------------------------------------------
@@ -241,6 +243,9 @@ def rule_validation_table(ctx):
 
     entry("quantitative and qualitative/ordinal features are disjoint", f"{F_BC}::BaseCarver.__init__", disjoint,
           "all(f not in quantitative_features for f in qualitative_features + ordinal_features)")
+    entry("quantitative columns hold no string", f"{F_QUAN}::ContinuousDiscretizer._prepare_data",
+          lambda t, a: mentions(t, "str", "type", "features") and any(isinstance(n, ast.Call) and call_name(n) in ("all", "any") for n in ast.walk(t)),
+          "not any(column.apply(lambda u: str in u.map(type).values))")
     entry("quantitative columns hold no string", f"{F_DISC}::QuantitativeDiscretizer._prepare_data",
           lambda t, a: mentions(t, "str", "type", "features") and any(isinstance(n, ast.Call) and call_name(n) == "all" for n in ast.walk(t)),
           "all(~(dtypes.apply(lambda u: str in u)))")
@@ -355,7 +360,41 @@ def rule_index_compare(ctx):
         ctx.ob("R-index-compare", construct(fi, "no element-wise index comparison"), True, loc(fi))
 
 
+def rule_validation_reached(ctx):
+    """Every concrete class validates its inputs: fit reaches BaseDiscretizer._prepare_data, and an
+    override of _prepare_data does not touch X before handing it to the base validator."""
+    repo, eng = ctx.repo, ctx.effects
+    base_val = repo.find_function(f"{F_BASE}::BaseDiscretizer._prepare_data")
+    for ci in concrete_classes(repo):
+        if ci.name == "BaseDiscretizer":
+            continue  # its fit takes no data (orders are given)
+        fi = repo.lookup_method(ci, "fit")
+        reach = {f.key for f in eng.reachable(fi, ci, None)}
+        ok = base_val.key in reach
+        ctx.ob("R-validation-reached", f"{ci.name}.fit::runs the common input validation (BaseDiscretizer._prepare_data)", ok, loc(fi),
+               "" if ok else "a non-DataFrame X, a missing column or a misaligned y reaches pandas / numpy code: IndexError / KeyError / TypeError instead of AssertionError")
+    for ci in discretizer_classes(repo):
+        fi = ci.methods.get("_prepare_data")
+        if fi is None or ci.name == "BaseDiscretizer":
+            continue
+        cfg = cfg_of(ctx, fi)
+        sup = [c for c in calls(fi, "_prepare_data") if isinstance(c.func.value, ast.Call) and call_name(c.func.value) == "super"]
+        if not sup:
+            ctx.ob("R-validation-reached", construct(fi, "override delegates to the base validator"), False, loc(fi), "no super()._prepare_data(...) call")
+            continue
+        early = []
+        for n in walk_no_nested(fi.node):
+            base = None
+            if isinstance(n, (ast.Attribute, ast.Subscript)) and isinstance(n.value, ast.Name) and isinstance(n.ctx, ast.Load):
+                base = n.value
+            if base is not None and base.id in ("X", "X_dev") and not any(cfg.before(s_, n) for s_ in sup):
+                early.append(n)
+        ctx.ob("R-validation-reached", construct(fi, "X is not dereferenced before the base validator has seen it"), not early, loc(fi, early[0] if early else None),
+               "" if not early else f"`{short(early[0])}` runs before the type assertion: a non-DataFrame X raises AttributeError / TypeError instead of AssertionError")
+
+
 def check(ctx):
+    rule_validation_reached(ctx)
     rule_guard_first(ctx)
     rule_validation_table(ctx)
     rule_assert_only(ctx)
@@ -378,6 +417,9 @@ MUTANTS = [
       "R-guard-first", "CategoricalDiscretizer.fit"),
     M("guard made conditional on verbose", [(F_BASE, "        self._check_is_not_fitted()\n\n        # checking that all features", "        if self.verbose:\n            self._check_is_not_fitted()\n\n        # checking that all features")],
       "R-guard-first", "BaseDiscretizer.fit"),
+    M("D21-reverted: ContinuousDiscretizer.fit skips the validation", [(F_QUAN, "        # checking data before bucketization\n        x_copy = self._prepare_data(X, y)\n\n        # storing ordering", "        x_copy = X\n\n        # storing ordering")], "R-validation-reached", "ContinuousDiscretizer.fit", quick=True),
+    M("D22-reverted: ChainedDiscretizer copies X before validating it", [(F_QUAL, "        # checking for binary target and previous fit\n        x_copy = super()._prepare_data(X, y)\n\n        # copying dataframe\n        x_copy = x_copy.copy()\n", "        # copying dataframe\n        x_copy = X.copy()\n\n        # checking for binary target and previous fit\n        x_copy = super()._prepare_data(x_copy, y)\n")], "R-validation-reached", "ChainedDiscretizer._prepare_data", quick=True),
+    M("StringDiscretizer.fit skips the validation", [(F_TYPE, "        x_copy = self._prepare_data(X, y)  # X[self.features].fillna(self.str_nan)", "        x_copy = X  # X[self.features].fillna(self.str_nan)")], "R-validation-reached", "StringDiscretizer.fit"),
     M("D10-reverted: length test dropped", [(F_BASE, "assert len(y.index) == len(X.index) and all(", "assert all(")], "R-index-compare", quick=True),
     M("X type assertion removed", [(F_BASE, "            assert isinstance(\n                X, DataFrame\n            ), f\" - [Discretizer] X must be a pandas.DataFrame, instead {type(X)} was passed\"\n", "")],
       "R-validation-table", "X is a DataFrame", quick=True),
